@@ -1,3 +1,4 @@
+pub mod bfs;
 pub mod e2;
 pub mod fp;
 pub mod json;
